@@ -196,6 +196,22 @@ contract(P + 'AggregatedFrame.encode', 'C11',
                             'self._aggregate[1].nr, self._aggregate[1].data))')],
          raises={})
 
+# one aggregated PDU of every type whose octets the independent reading can judge (fixed-format types with any
+# content; CONNECT/CC without parameters): the AGF decoder hands over exactly that PDU - in particular the
+# "no AGF inside an AGF" guard looks at the PTYPE bits and nothing else (any DSAP/SSAP)
+for _pt, _nm in PT_NAMES.items():
+    if _nm in ('SYMM', 'PAX', 'AGF', 'SNL', 'DPS'):
+        continue
+    _extra = ['len(frames[0]) == 2'] if _nm in ('CONNECT', 'CC') else []
+    contract('drivers.c11:rt_agf', 'C11', dict(frames=Fixed([Bytes(2, 300)])),
+             name='C11/AggregatedFrame.roundtrip[1,%s]' % _nm,
+             bounded='bounded: 1 aggregated PDU of symbolic content',
+             requires=['valid_frame(frames[0]) and hdr_ptype(frames[0]) == %d' % _pt] + _extra,
+             ensures=[('O-rt.type', 'type(result).__name__ == "AggregatedFrame"'),
+                      ('O-rt.count', 'len(result._aggregate) == 1'),
+                      ('O-rt.first', 'agrees(result._aggregate[0], frames[0])')],
+             raises={})
+
 # ------------------------------------------------------------------ sentinels (must fail)
 contract(P + 'Connect.encode', 'C11',
          dict(self=pdu_obj('Connect', 4, miu=Int(128, 2175), rw=Int(0, 15), sn=Opt(Bytes(1, 255)))),
@@ -214,8 +230,8 @@ import copy as _copy
 from pyvc.contracts import REGISTRY as _REG
 for _c in list(_REG):
     _short = _c.name.split('/', 1)[1]
-    if _c.prop == 'C11' and not _c.expect_fail and not _c.bounded and \
-            (_short.endswith('.encode') or _short.startswith('decode[') or _short.startswith('AggregatedFrame.')):
+    if _c.prop == 'C11' and not _c.expect_fail and (not _c.bounded or _short.startswith('AggregatedFrame.roundtrip')) \
+            and (_short.endswith('.encode') or _short.startswith('decode[') or _short.startswith('AggregatedFrame.')):
         _c2 = _copy.copy(_c)
         _c2.prop = 'C10'
         _c2.name = 'C10/pdu.' + _short
